@@ -30,6 +30,10 @@ structure LexTableOK : Prop where
   sym2 : Gen.symbols.lookup [60] = some .tLt ∧ Gen.symbols.lookup [62] = some .tGt ∧
     Gen.symbols.lookup [60, 61] = some .tLte ∧ Gen.symbols.lookup [62, 61] = some .tGte ∧
     Gen.symbols.lookup [33, 61] = some .tNotEq ∧ Gen.symbols.lookup [61, 61] = some .tEq
+  /-- the keywords of the expression language in `builtinIdents` -/
+  kw : Gen.builtinIdents.lookup [110, 117, 108, 108] = some .tNull ∧ Gen.builtinIdents.lookup [116, 114, 117, 101] = some .tBool ∧
+    Gen.builtinIdents.lookup [102, 97, 108, 115, 101] = some .tBool ∧ Gen.builtinIdents.lookup [110, 111, 116] = some .tNot ∧
+    Gen.builtinIdents.lookup [97, 110, 100] = some .tAnd ∧ Gen.builtinIdents.lookup [111, 114] = some .tOr
   /-- no key of `builtinIdents` begins with `$`, `.` or `?` -/
   keys : ∀ kv ∈ Gen.builtinIdents, kv.1.head? ≠ some 36 ∧ kv.1.head? ≠ some 46 ∧ kv.1.head? ≠ some 63
   /-- `lexNegative`: unary after every token that can precede an operand, binary after every
